@@ -728,9 +728,29 @@ pub fn enumerate(base: &SchedCase, focus: SF, bound: usize, excl_only: bool, max
     (runs, keys, None, truncated)
 }
 
+/// Canonical programs for the concurrent clauses of C03 / C14 / C15: unbounded functions,
+/// two threads looking the same tuples up, with and without a value stored beforehand.
+pub fn canonical_lookup_programs(focus: SF) -> Vec<(String, SchedCase)> {
+    let corpus = static_corpus();
+    let mut v = Vec::new();
+    let fams: &[&str] = if focus == SF::C15 { &["concu", "conc"] } else { &["concu"] };
+    for d in corpus.funcs.iter().filter(|d| fams.contains(&d.family) && (d.family == "concu" || (d.ttl.is_none() && d.max_memory.is_none() && matches!(d.effective_policy(), Policy::Lru | Policy::Lfu)))) {
+        let fln = if d.flavour == Flavour::Global { "sync" } else { "async" };
+        let mk = |name: &str, prefix: Vec<(u8, u8)>, threads: Vec<Vec<SOp>>| (format!("{}:{}:{}", fln, d.fn_name, name), SchedCase { fns: vec![d.id], prefix, age_prefix_ns: 0, threads, decisions: vec![] });
+        let c = |k: u8| SOp::Call { f: 0, k };
+        v.push(mk("both-miss-then-again", vec![], vec![vec![c(0), c(0)], vec![c(0), c(0)]]));
+        v.push(mk("stored-before||two-readers", vec![(0, 0)], vec![vec![c(0), c(1)], vec![c(0), c(1)]]));
+        v.push(mk("miss||miss+other+again", vec![], vec![vec![c(0)], vec![c(0), c(1), c(0)]]));
+        if focus == SF::C15 {
+            v.push(mk("calls||stats-get", vec![(0, 0)], vec![vec![c(0), c(1)], vec![SOp::StatsGet { f: 0 }, c(0), SOp::StatsList]]));
+        }
+    }
+    v
+}
+
 pub fn exhaustive_stage(focus: SF, tier: Tier, _seed: u64) -> crate::infra::CustomOut {
     let mut out = crate::infra::CustomOut::default();
-    let progs = canonical_programs(tier);
+    let progs = if matches!(focus, SF::C17 | SF::C18) { canonical_programs(tier) } else { canonical_lookup_programs(focus) };
     // preemption bounds: (sync programs, async programs); async stores touch ~10x more locks
     let (bound_sync, bound_async, max_runs, n_threads) = match tier {
         Tier::Quick => (2usize, 1usize, 2_000usize, 8usize),
@@ -804,6 +824,15 @@ pub fn exhaustive_c17(t: Tier, s: u64) -> crate::infra::CustomOut {
 }
 pub fn exhaustive_c18(t: Tier, s: u64) -> crate::infra::CustomOut {
     exhaustive_stage(SF::C18, t, s)
+}
+pub fn exhaustive_c03(t: Tier, s: u64) -> crate::infra::CustomOut {
+    exhaustive_stage(SF::C03, t, s)
+}
+pub fn exhaustive_c14(t: Tier, s: u64) -> crate::infra::CustomOut {
+    exhaustive_stage(SF::C14, t, s)
+}
+pub fn exhaustive_c15(t: Tier, s: u64) -> crate::infra::CustomOut {
+    exhaustive_stage(SF::C15, t, s)
 }
 
 // ---------------------------------------------------------------------------------------
